@@ -334,3 +334,64 @@ Example ex_nfa_runs :
   option_map (fun X0 => option_map (nacc ex_nfa) (nrun ex_nfa [98] X0)) (nstart ex_nfa) = Some (Some 3) /\
   option_map (fun X0 => option_map (nacc ex_nfa) (nrun ex_nfa [98; 98] X0)) (nstart ex_nfa) = Some (Some 0).
 Proof. vm_compute. repeat split. Qed.
+
+(** ** equivalence classes *)
+Lemma ec_rep_class ec al b : In b al -> In (ec_rep ec al b) al /\ ec (ec_rep ec al b) = ec b.
+Proof.
+  intros Hin. unfold ec_rep. destruct (find (fun c => ec c =? ec b) al) as [c|] eqn:E.
+  - apply find_some in E. destruct E as [Hc He]. apply N.eqb_eq in He. split; assumption.
+  - split; [exact Hin|reflexivity].
+Qed.
+
+Lemma ec_rep_same ec al b1 b2 : In b1 al -> ec b1 = ec b2 -> ec_rep ec al b1 = ec_rep ec al b2.
+Proof.
+  intros Hin He. unfold ec_rep. rewrite He. destruct (find (fun c => ec c =? ec b2) al) as [c|] eqn:E; [reflexivity|].
+  exfalso. pose proof (find_none _ _ E b1 Hin) as F. cbv beta in F. rewrite He, N.eqb_refl in F. discriminate.
+Qed.
+
+Lemma nth1_In {A} (l : list A) i x : nth1 l i = Some x -> In x l.
+Proof. unfold nth1. destruct (i =? 0); [discriminate|]. apply nth_error_In. Qed.
+
+Lemma ec_consistent_sym a ec al : ec_consistent a ec al = true ->
+  forall i nd b1 b2, node a i = Some nd -> In b1 al -> In b2 al -> ec b1 = ec b2 ->
+    sym_has a (n_sym nd) b1 = sym_has a (n_sym nd) b2.
+Proof.
+  unfold ec_consistent. intros H i nd b1 b2 Hnd H1 H2 He.
+  rewrite forallb_forall in H. specialize (H nd (nth1_In _ _ _ Hnd)).
+  rewrite forallb_forall in H. pose proof (H b1 H1) as E1. pose proof (H b2 H2) as E2.
+  apply eqb_prop in E1. apply eqb_prop in E2.
+  rewrite E1, E2, (ec_rep_same ec al b1 b2 H1 He). reflexivity.
+Qed.
+
+Lemma flat_map_ext_in {A B} (f g : A -> list B) l : (forall x, In x l -> f x = g x) -> flat_map f l = flat_map g l.
+Proof.
+  induction l as [|x t IH]; intros H; simpl; [reflexivity|].
+  rewrite (H x (or_introl eq_refl)), IH; [reflexivity|]. intros y Hy. apply H. right. exact Hy.
+Qed.
+
+(** bytes of one class move every set of NFA states alike: the DFA over classes is well defined *)
+Theorem ec_consistent_move a ec al : ec_consistent a ec al = true ->
+  forall b1 b2, In b1 al -> In b2 al -> ec b1 = ec b2 -> forall X, move a X b1 = move a X b2.
+Proof.
+  intros H b1 b2 H1 H2 He X. unfold move. f_equal. apply flat_map_ext_in. intros i _.
+  unfold chr_succ. destruct (node a i) as [nd|] eqn:E; [|reflexivity].
+  rewrite (ec_consistent_sym a ec al H i nd b1 b2 E H1 H2 He). reflexivity.
+Qed.
+
+Theorem ec_consistent_run a ec al : ec_consistent a ec al = true ->
+  forall w1 w2, Forall2 (fun b1 b2 => In b1 al /\ In b2 al /\ ec b1 = ec b2) w1 w2 ->
+  forall X, nrun a w1 X = nrun a w2 X.
+Proof.
+  intros H w1 w2 HF. induction HF as [|b1 b2 t1 t2 [H1 [H2 He]] _ IH]; intros X; simpl; [reflexivity|].
+  unfold nstep. rewrite (ec_consistent_move a ec al H b1 b2 H1 H2 He X).
+  destruct (eclosed a (move a X b2)) as [X'|]; [apply IH|reflexivity].
+Qed.
+
+(** ** the printed DFA as a scanner automaton: the generic theorems instantiated *)
+Require Import FlexV.Pat.
+Theorem printed_dfa_token p sc bol d m :
+  check_view (dview d) (alphabet (p_csize p)) m (spec_start p sc bol) (v_start (dview d) (Z.of_N sc - 1) bol) = true ->
+  forall w, Forall (fun b => (b < p_csize p)%N) w -> w <> [] ->
+    let (r, k) := scan (dview d) (v_start (dview d) (Z.of_N sc - 1) bol) w 0 (0%N, 0%nat) in
+    r <> 0%N /\ (1 <= k)%nat /\ Selected (spec_start p sc bol) w r k.
+Proof. exact (C01_token p sc bol (dview d) m). Qed.
